@@ -3,6 +3,7 @@ package main
 import (
 	_ "embed"
 	"fmt"
+	"go/token"
 	"go/types"
 	"sort"
 	"strings"
@@ -216,8 +217,12 @@ var headParamsTxt string
 
 type headParam struct{ name, typ string }
 
-// paramPerm: function -> for every reference index the current index (nil: same order)
-var paramPerm = map[*ssa.Function][]int{}
+// vparam: where a reference parameter lives now - the current parameter cur as a whole (field < 0) or field `field`
+// of the current parameter cur, a struct value that bundles several reference parameters (a "parameter object").
+type vparam struct{ cur, field int }
+
+// paramPerm: function -> for every reference index its current place (nil: same parameters in the same order)
+var paramPerm = map[*ssa.Function][]vparam{}
 
 func reorderable(f *ssa.Function) bool {
 	return f != nil && f.Parent() == nil && f.Synthetic == "" && f.Object() != nil && !f.Object().Exported() && f.Blocks != nil && inModuleFn(f)
@@ -240,7 +245,7 @@ func dumpHeadParams(P *Program) {
 }
 
 func computeParamPerms(P *Program) {
-	paramPerm = map[*ssa.Function][]int{}
+	paramPerm = map[*ssa.Function][]vparam{}
 	head := map[string][]headParam{}
 	for _, ln := range strings.Split(headParamsTxt, "\n") {
 		p := strings.Split(ln, "\t")
@@ -254,30 +259,58 @@ func computeParamPerms(P *Program) {
 		}
 		head[p[0]][idx] = headParam{p[2], p[3]}
 	}
+	knownStruct := map[string]bool{}
+	for _, ln := range strings.Split(headFieldsTxt, "\n") {
+		if p := strings.Split(ln, "\t"); len(p) == 3 {
+			knownStruct[p[0]] = true
+		}
+	}
 	for _, f := range P.AllFuncs {
 		if !reorderable(f) {
 			continue
 		}
 		h := head[FuncKey(f)]
-		if len(h) == 0 || len(h) != len(f.Params) {
+		if len(h) == 0 || len(f.Params) > len(h) {
+			continue
+		}
+		// the current parameters, a struct value of a type the reference tree does not have expanded into its fields
+		type slot struct {
+			v         vparam
+			name, typ string
+		}
+		var slots []slot
+		for i, p := range f.Params {
+			if len(f.Params) < len(h) {
+				if n, ok := p.Type().(*types.Named); ok && n.Obj().Pkg() != nil && inModule(n.Obj().Pkg()) && !n.Obj().Exported() && !knownStruct[typeKey(n)] {
+					if st, ok := n.Underlying().(*types.Struct); ok {
+						for j := 0; j < st.NumFields(); j++ {
+							slots = append(slots, slot{vparam{i, j}, st.Field(j).Name(), typeStr(st.Field(j).Type())})
+						}
+						continue
+					}
+				}
+			}
+			slots = append(slots, slot{vparam{i, -1}, p.Name(), typeStr(p.Type())})
+		}
+		if len(slots) != len(h) {
 			continue
 		}
 		same := true
-		for i, p := range f.Params {
-			if typeStr(p.Type()) != h[i].typ {
+		for i, sl := range slots {
+			if sl.typ != h[i].typ || sl.v.field >= 0 || sl.v.cur != i {
 				same = false
 			}
 		}
 		if same {
 			continue
 		}
-		perm := make([]int, len(h))
+		perm := make([]vparam, len(h))
 		used := map[int]bool{}
 		ok := true
 		for i := range h {
 			var cands []int
-			for j, p := range f.Params {
-				if !used[j] && typeStr(p.Type()) == h[i].typ {
+			for j, sl := range slots {
+				if !used[j] && sl.typ == h[i].typ {
 					cands = append(cands, j)
 				}
 			}
@@ -286,7 +319,7 @@ func computeParamPerms(P *Program) {
 				pick = cands[0]
 			} else {
 				for _, j := range cands {
-					if f.Params[j].Name() == h[i].name {
+					if slots[j].name == h[i].name {
 						pick = j
 					}
 				}
@@ -296,7 +329,7 @@ func computeParamPerms(P *Program) {
 				break
 			}
 			used[pick] = true
-			perm[i] = pick
+			perm[i] = slots[pick].v
 		}
 		if ok {
 			paramPerm[f] = perm
@@ -304,10 +337,90 @@ func computeParamPerms(P *Program) {
 	}
 }
 
+// structFieldValue: the value of field j of a struct value that was built as a literal at the call site
+// (`stmt := T{a: x, b: y}; f(stmt)`: go/ssa fills a local and loads it once); nil if it is not of that form.
+func structFieldValue(v ssa.Value, j int) ssa.Value {
+	ld, ok := v.(*ssa.UnOp)
+	if !ok || ld.Op != token.MUL {
+		return nil
+	}
+	al, ok := ld.X.(*ssa.Alloc)
+	if !ok {
+		return nil
+	}
+	var val ssa.Value
+	n := 0
+	for _, r := range referrersOf(al) {
+		fa, ok := r.(*ssa.FieldAddr)
+		if !ok || fa.Field != j {
+			continue
+		}
+		for _, rr := range referrersOf(fa) {
+			if st, ok := rr.(*ssa.Store); ok && st.Addr == ssa.Value(fa) {
+				val = st.Val
+				n++
+			}
+		}
+	}
+	if n != 1 {
+		return nil
+	}
+	return val
+}
+
+// virtualParam: v reads a field of a parameter object (the struct parameter itself, or the local it is spilled to);
+// returns the function, the reference index that field stands for and the struct parameter.
+func virtualParam(v ssa.Value) (*ssa.Function, int, *ssa.Parameter, bool) {
+	if len(paramPerm) == 0 {
+		return nil, 0, nil, false
+	}
+	var p *ssa.Parameter
+	field := -1
+	switch x := v.(type) {
+	case *ssa.Field:
+		p, _ = x.X.(*ssa.Parameter)
+		field = x.Field
+	case *ssa.FieldAddr:
+		if al, ok := x.X.(*ssa.Alloc); ok {
+			n := 0
+			for _, r := range referrersOf(al) {
+				if st, ok := r.(*ssa.Store); ok && st.Addr == ssa.Value(al) {
+					n++
+					p, _ = st.Val.(*ssa.Parameter)
+				}
+			}
+			if n != 1 {
+				p = nil
+			}
+		}
+		field = x.Field
+	}
+	if p == nil {
+		return nil, 0, nil, false
+	}
+	f := p.Parent()
+	perm := paramPerm[f]
+	if perm == nil {
+		return nil, 0, nil, false
+	}
+	cur := -1
+	for i, q := range f.Params {
+		if q == p {
+			cur = i
+		}
+	}
+	for h, vp := range perm {
+		if vp.cur == cur && vp.field == field {
+			return f, h, p, true
+		}
+	}
+	return nil, 0, nil, false
+}
+
 // paramAt: the parameter that stands at position k on the reference tree.
 func paramAt(f *ssa.Function, k int) *ssa.Parameter {
 	if perm := paramPerm[f]; perm != nil && k < len(perm) {
-		return f.Params[perm[k]]
+		return f.Params[perm[k].cur] // (for a bundled parameter: the parameter object that carries it)
 	}
 	return f.Params[k]
 }
